@@ -177,6 +177,31 @@ func c14Check(c C14Case, rec *evid.Rec) error {
 				return fmt.Errorf("visited (re-parsed) %w", err)
 			}
 		}
+		// starting AT a link node (what a caller holds after a lookup that did not load): the path-directed
+		// functions do not dereference the node they start from; a non-empty path from it fails like from any scalar,
+		// and so does a stepwise lookup
+		if len(segs) >= 1 && i%2 == 0 {
+			if parent, perr := stepwise(real, mkPath(segs[:len(segs)-1])); perr == nil && (parent.Kind() == datamodel.Kind_Map || parent.Kind() == datamodel.Kind_List) {
+				if raw, lerr := parent.LookupBySegment(datamodel.PathSegmentOfString(segs[len(segs)-1])); lerr == nil && raw.Kind() == datamodel.Kind_Link {
+					for _, tail := range [][]string{{"a"}, {"0"}, {"nosuch", "a"}, {"l"}} {
+						var got datamodel.Node
+						gerr := evid.Guard("Get", func() error {
+							var e error
+							got, e = traversal.Progress{Cfg: cfg}.Get(raw, mkPath(tail))
+							return e
+						})
+						if gerr == nil {
+							gv, _ := nodes.Read(got)
+							return fmt.Errorf("Get starting at the link node found at %q with path %q returned %s; a link node has no children (a stepwise lookup fails there)", p.String(), mkPath(tail).String(), gv.Short(100))
+						}
+						if strings.HasPrefix(gerr.Error(), "PANIC") {
+							return fmt.Errorf("Get starting at the link node found at %q: %v", p.String(), gerr)
+						}
+					}
+					rec.Class("start-at-link-node")
+				}
+			}
+		}
 		// the documented nested use: a Focus started from inside the visit of another Focus (its Progress already
 		// has a path) reports the whole path from the root, and reaches the same node
 		if len(segs) >= 1 {
